@@ -428,6 +428,9 @@ OWN_SEEDS = [
     "#define N 3\n#if N\nchar v[N];\n#endif\nvoid main() { for (X = 0; X < N; X++) v[X] = 0; }",
     "unsigned char a; void main() { do { a--; if (a == 3) continue; } while (a); goto l; l: a = 1 ? 2 : 3; }",
     "inline char f(char x) { return x + 1; } unsigned char a; void main() { a = f(f(2)); strobe(a); }",
+    "unsigned char a, b; void main() { switch (a) { case 1: continue; default: b = 1; } }",
+    "unsigned char a, b; void f() { switch (a) { case 1: b++; break; case 2: if (b) continue; } }\nvoid main() { f(); do { switch (b) { case 0: continue; } a++; } while (a); }",
+    "unsigned char a; void main() { { continue; } while (a) { a--; } break; }",
 ]
 
 
